@@ -113,12 +113,57 @@ def get_divisors(t):
         res.extend(get_divisors(arg))
     return res
 
+def get_domain_conds(t):
+    """Return the conditions under which the SymPy functions used for t agree
+    with the HOL functions, as pairs (kind, term): the term must be
+    nonnegative (kind 'nonneg') or positive (kind 'pos').
+
+    In SymPy sqrt and log of negative numbers are complex and sqrt(x) ** 2,
+    exp(log(x)) simplify to x, while in the HOL library sqrt is total on the
+    reals (sqrt(-1) = -1), exp(log x) = x holds for positive x only, and real
+    powers are specified for positive bases.
+
+    """
+    if t.is_number() or not t.is_comb():
+        return []
+    res = []
+    if t.is_comb('sqrt', 1):
+        res.append(('nonneg', t.arg))
+    elif t.is_comb('log', 1):
+        res.append(('pos', t.arg))
+    elif t.is_real_power():
+        res.append(('pos', t.arg1))
+    for arg in t.args:
+        res.extend(get_domain_conds(arg))
+    return res
+
+def get_pole_divisors(t):
+    """tan, cot, sec, csc are quotients in the HOL library: return their divisors."""
+    if t.is_number() or not t.is_comb():
+        return []
+    res = []
+    if t.is_comb('tan', 1) or t.is_comb('sec', 1):
+        res.append(real.cos(t.arg))
+    elif t.is_comb('cot', 1) or t.is_comb('csc', 1):
+        res.append(real.sin(t.arg))
+    for arg in t.args:
+        res.extend(get_pole_divisors(arg))
+    return res
+
 def solve_goal(goal):
     """Attempt to solve goal using sympy."""
     try:
-        for d in get_divisors(goal):
+        for d in get_divisors(goal) + get_pole_divisors(goal):
             d = convert(d)
             if not (d.is_number and d.is_zero is False):
+                return False
+        for kind, d in get_domain_conds(goal):
+            d = convert(d)
+            if not d.is_number:
+                return False
+            if kind == 'nonneg' and d.is_nonnegative is not True:
+                return False
+            if kind == 'pos' and d.is_positive is not True:
                 return False
     except SymPyException:
         return False
@@ -174,12 +219,18 @@ def solve_with_interval(goal, cond):
     if any(v != cond.arg1 for v in goal.get_vars()):
         return False
 
-    # No divisor may vanish on the interval.
+    # No divisor may vanish on the interval, and the arguments of sqrt, log
+    # and the bases of real powers must stay in the domain on which SymPy's
+    # functions are the HOL functions.
     try:
-        for d in get_divisors(goal):
+        for d in get_divisors(goal) + get_pole_divisors(goal):
             if solveset_wrapper(convert(d), var, interval) != sympy.EmptySet:
                 return False
-    except SymPyException:
+        for kind, d in get_domain_conds(goal):
+            d = convert(d)
+            if solveset_wrapper(d >= 0 if kind == 'nonneg' else d > 0, var, interval) != interval:
+                return False
+    except (SymPyException, TypeError, NotImplementedError):
         return False
 
     if goal.is_not() and goal.arg.is_equals():
